@@ -442,6 +442,9 @@ def check_simple_cfg_roundtrip(ctx, rep, fp=None, fr=None, rule=RULE + '.M39'):
                     text = _interp(ctx, order, classes=classes).call(fp, [G])
                     if not isinstance(text, str):
                         raise Unsupported('the printer did not return a string')
+                    if (_rules_of(G), {str(x) for x in G._f['V']}, {str(x) for x in G._f['Sigma']}, str(G._f['S'])) != before:
+                        rep.violates(rule, fp, 'def ' + fp.name, 'printing the grammar {} modifies it'.format(name))
+                        return
                     H = _interp(ctx, order, classes=classes).call(fr, [text])
                 except Raised as ex:
                     if ex.name in ('TypeError', 'AttributeError') and not getattr(ex, 'certain', False):
@@ -460,3 +463,96 @@ def check_simple_cfg_roundtrip(ctx, rep, fp=None, fr=None, rule=RULE + '.M39'):
         rep.undecided(rule, fr, 'def ' + fr.name, 'outside the evaluator: {}'.format(e))
         return
     rep.holds(rule, fr, 'def ' + fr.name, 'on {} round trips ({} model grammars in the simple format, two iteration orders of sets; the empty alternative on the first line, on a later line only, in the middle of a line, nowhere) the grammar read back has the same rules in the same order, variables, terminals and start variable'.format(cases, len(_SIMPLE_GRAMMARS)))
+
+
+# ---- the DFA exercise checkers on model answers (C12 / C13) -----------------------------------------------------------------------------------
+
+_D1 = 'initial e\nfinal e\ne o a\no e a\ne e b\no o b'          # an even number of a's
+_D2 = 'initial n\nfinal y\nn n a\ny n a\nn y b\ny y b'          # ends with b
+
+
+def _product_text(final, redirect=None):
+    """the product of _D1 and _D2 in the text format, with the given accepting pairs; redirect = ((state, symbol), target) changes one edge"""
+    lines = ['initial (e,n)', 'final ' + ' '.join(final)]
+    for x in 'eo':
+        for s in 'ny':
+            for a in 'ab':
+                tgt = '({},{})'.format(('o' if x == 'e' else 'e') if a == 'a' else x, 'n' if a == 'a' else 'y')
+                if redirect and redirect[0] == ('({},{})'.format(x, s), a):
+                    tgt = redirect[1]
+                lines.append('({},{}) {} {}'.format(x, s, tgt, a))
+    return '\n'.join(lines)
+
+
+_F_UNION = ['(e,n)', '(e,y)', '(o,y)']
+_F_INTER = ['(e,y)']
+_F_SYMDIFF = ['(e,n)', '(o,y)']
+_MIN_REF = 'initial p\nfinal q r\np q a\nq r a\nr q a'          # a+ with two equivalent states
+_CHECKER_CASES = [
+    # (checker, arguments, is the answer right?, what it is)
+    ('notebook_dfa.check_dfa_union', [_product_text(_F_UNION), _D1, _D2, 3], True, 'the product with the accepting pairs of the union'),
+    ('notebook_dfa.check_dfa_union', [_product_text(_F_INTER), _D1, _D2, 3], False, 'the product with the accepting pairs of the intersection'),
+    ('notebook_dfa.check_dfa_union', [_product_text(_F_SYMDIFF), _D1, _D2, 3], False, 'the product with the accepting pairs of the symmetric difference'),
+    ('notebook_dfa.check_dfa_union', [_product_text(_F_UNION, ((('(e,n)'), 'a'), '(e,n)')), _D1, _D2, 3], False, 'the union product with one a-edge redirected'),
+    ('notebook_dfa.check_dfa_intersection', [_product_text(_F_INTER), _D1, _D2, 3], True, 'the product with the accepting pairs of the intersection'),
+    ('notebook_dfa.check_dfa_intersection', [_product_text(_F_UNION), _D1, _D2, 3], False, 'the product with the accepting pairs of the union'),
+    ('notebook_dfa.check_dfa_intersection', [_product_text([]), _D1, _D2, 3], False, 'the product without accepting pairs'),
+    ('notebook_dfa.check_dfa_symmetric_difference', [_product_text(_F_SYMDIFF), _D1, _D2, 3], True, 'the product with the accepting pairs of the symmetric difference'),
+    ('notebook_dfa.check_dfa_symmetric_difference', [_product_text(_F_UNION), _D1, _D2, 3], False, 'the product with the accepting pairs of the union'),
+    ('notebook_dfa.check_dfa_symmetric_difference', [_product_text(_F_INTER), _D1, _D2, 3], False, 'the product with the accepting pairs of the intersection'),
+    ('notebook_dfa.check_dfa_complement', ['initial e\nfinal o\ne o a\no e a\ne e b\no o b', _D1, 3], True, 'the DFA with the accepting states complemented'),
+    ('notebook_dfa.check_dfa_complement', [_D1, _D1, 3], False, 'the original DFA'),
+    ('notebook_dfa.check_dfa_complement', ['initial e\nfinal\ne o a\no e a\ne e b\no o b', _D1, 3], False, 'the DFA without accepting states'),
+    ('notebook_dfa.check_dfa_complement', ['initial e\nfinal e o\ne o a\no e a\ne e b\no o b', _D1, 3], False, 'the DFA with every state accepting'),
+    ('notebook_dfa.check_dfa_complement', ['initial e\nfinal o\ne o a\no o a\ne e b\no o b', _D1, 3], False, 'the complemented DFA with one edge redirected'),
+    ('notebook_dfa.check_dfa_minimal', [_MIN_REF, 'initial A\nfinal B\nA B a\nB B a', 4], True, 'the two-state DFA of a+'),
+    ('notebook_dfa.check_dfa_minimal', [_MIN_REF, _MIN_REF, 4], False, 'the original DFA, which has two equivalent states'),
+    ('notebook_dfa.check_dfa_minimal', [_MIN_REF, 'initial A\nfinal A\nA B a\nB B a', 4], False, 'a two-state DFA of another language'),
+    ('notebook_dfa.check_dfa_minimal', [_MIN_REF, 'initial A\nfinal B\nA B a\nB A a', 4], False, 'a two-state DFA of the odd powers of a'),
+]
+
+
+def check_dfa_checkers(ctx, rep, rule='R-FEEDBACK.K13'):
+    """the DFA exercise checkers (union, intersection, symmetric difference, complement, minimal DFA) evaluated whole -- parsers,
+    library construction, language comparison, feedback -- on model exercises: OK is printed for the right answer (C13) and is
+    NOT printed for answers whose language differs from the reference within the bound, or which are not minimal (C12)."""
+    n_ok = 0
+    by_checker = {}
+    for spec, args, right, what in _CHECKER_CASES:
+        by_checker.setdefault(spec, []).append((args, right, what))
+    for spec, cases in by_checker.items():
+        f = ctx.prog.func(spec)
+        bad = False
+        n = 0
+        try:
+            for args, right, what in cases:
+                for order in ('asc', 'desc'):
+                    it = _interp(ctx, order)
+                    it.max_steps = 3000000
+                    try:
+                        it.call(f, list(args))
+                    except Raised as ex:
+                        if ex.name in ('TypeError', 'AttributeError') and not getattr(ex, 'certain', False):
+                            raise Unsupported('the evaluator met a {} it cannot attribute to the code'.format(ex.name))
+                        rep.violates(rule, f, 'def ' + f.name, 'raises {} for the answer "{}" instead of printing a verdict'.format(ex.name, what))
+                        bad = True
+                        break
+                    n += 1
+                    said_ok = [x.strip() for x in it.printed] == ['OK']
+                    if right and not said_ok:
+                        rep.violates(rule, f, 'def ' + f.name, 'the right answer ({}) is not accepted: the checker prints {!r}'.format(what, it.printed[:2]))
+                        bad = True
+                        break
+                    if not right and any(x.strip() == 'OK' for x in it.printed):
+                        rep.violates(rule, f, 'def ' + f.name, 'OK is printed for a wrong answer: {}'.format(what))
+                        bad = True
+                        break
+                if bad:
+                    break
+        except (Unsupported, RecursionError) as e:
+            rep.undecided(rule, f, 'def ' + f.name, 'outside the evaluator: {}'.format(e))
+            continue
+        if not bad:
+            rep.holds(rule, f, 'def ' + f.name, 'on {} evaluations (model exercise, {} answers, two iteration orders of sets) OK is printed for the right answer and for none of the wrong ones'.format(n, len(cases)))
+            n_ok += 1
+    return n_ok
